@@ -28,8 +28,8 @@ import (
 	rolloutsv1alpha1 "github.com/openkruise/rollouts/api/v1alpha1"
 	rolloutsv1beta1 "github.com/openkruise/rollouts/api/v1beta1"
 	"github.com/openkruise/rollouts/pkg/util"
-	"github.com/openkruise/rollouts/pkg/webhook/util/configuration"
 	webhookutil "github.com/openkruise/rollouts/pkg/webhook/util"
+	"github.com/openkruise/rollouts/pkg/webhook/util/configuration"
 	"github.com/openkruise/rollouts/pkg/webhook/workload/mutating"
 	admissionv1 "k8s.io/api/admission/v1"
 	admregv1 "k8s.io/api/admissionregistration/v1"
@@ -654,9 +654,9 @@ func whEmitFetch(c *Ctx, g *whGen) {
 			return J{"err": true}
 		}
 		if r == nil {
-			return nil
+			return J{"rollout": nil}
 		}
-		return r.Name
+		return J{"rollout": r.Name}
 	})
 	c.Emit("fetch", in, impl)
 }
@@ -899,12 +899,25 @@ func whRaw(p *wlP) json.RawMessage {
 	return out
 }
 
-type whG struct{ c *Ctx }
+// bias: half of the cases are steered towards the hold path (selected, release change, an active
+// matching Rollout, running ReplicaSets); all other dimensions stay random.
+type whG struct {
+	c    *Ctx
+	bias bool
+}
 
-func (g *whG) n(k int) int        { return g.c.Rng.Intn(k) }
-func (g *whG) p(pct int) bool     { return g.c.Rng.Intn(100) < pct }
+// pb: probability (percent) `normal`, or `biased` in a steered case.
+func (g *whG) pb(normal, biased int) bool {
+	if g.bias {
+		return g.p(biased)
+	}
+	return g.p(normal)
+}
+
+func (g *whG) n(k int) int              { return g.c.Rng.Intn(k) }
+func (g *whG) p(pct int) bool           { return g.c.Rng.Intn(100) < pct }
 func (g *whG) pick(xs ...string) string { return xs[g.n(len(xs))] }
-func (g *whG) intp(v int) *int    { return &v }
+func (g *whG) intp(v int) *int          { return &v }
 
 func (g *whG) iosPtr() *intstr.IntOrString {
 	var v intstr.IntOrString
@@ -960,7 +973,7 @@ var whRolloutNames = []string{"alpha", "bravo", "charlie", "delta", "echo", "fox
 
 func (g *whG) workload(combo string) *wlP {
 	p := &wlP{Combo: combo, Name: g.pick("web", "api"), UID: "uid-dep", Generation: 3}
-	if g.p(88) {
+	if g.pb(88, 98) {
 		p.WType = g.pick("deployment", "cloneset", "statefulset", "StatefulSet", "daemonset", "x")
 		if (combo == "custom") && g.p(70) {
 			p.WType = g.pick("statefulset", "StatefulSet", "STATEFULSET")
@@ -977,6 +990,9 @@ func (g *whG) workload(combo string) *wlP {
 		p.Replicas = nil
 	case 1:
 		p.Replicas = g.intp(0)
+		if g.bias && g.p(70) {
+			p.Replicas = g.intp(2)
+		}
 	default:
 		p.Replicas = g.intp(1 + g.n(10))
 	}
@@ -1007,7 +1023,7 @@ func (g *whG) workload(combo string) *wlP {
 		if g.p(12) {
 			p.StableRev = "old-stable"
 		}
-		if g.p(38) {
+		if g.pb(38, 12) {
 			// in progress
 			p.InProgress = g.pick(`{"rolloutName":"alpha"}`, `{"rolloutName":"bravo"}`, `{"rolloutName":""}`, "garbage", `{"rolloutName": "spaced"}`)
 			switch g.n(3) {
@@ -1064,7 +1080,13 @@ func (g *whG) workload(combo string) *wlP {
 		case 1:
 			p.USMode = "malformed"
 		}
-		p.TmplAbsent = g.p(4)
+		p.TmplAbsent = g.pb(4, 1)
+		if g.bias && g.p(60) {
+			p.USType = g.pick("RollingUpdate", "")
+			if p.USMode == "malformed" {
+				p.USMode = ""
+			}
+		}
 	}
 	return p
 }
@@ -1081,7 +1103,11 @@ func (g *whG) edit(old *wlP) *wlP {
 		k = 2
 	}
 	for i := 0; i < k; i++ {
-		switch g.n(14) {
+		e := g.n(14)
+		if g.bias && i == 0 && g.p(85) {
+			e = g.n(6) // a release change
+		}
+		switch e {
 		case 0, 1, 2, 3: // new pod template
 			n.Body = 1 + (old.Body+g.n(2))%3
 			if n.Body == old.Body {
@@ -1129,7 +1155,7 @@ func (g *whG) edit(old *wlP) *wlP {
 	return &n
 }
 
-func (g *whG) rollout(name string, w *wlP, group, version, kind string) *rolloutsv1beta1.Rollout {
+func (g *whG) rollout(name string, w *wlP, group, version, kind string, steer bool) *rolloutsv1beta1.Rollout {
 	r := &rolloutsv1beta1.Rollout{TypeMeta: metav1.TypeMeta{APIVersion: "rollouts.kruise.io/v1beta1", Kind: "Rollout"},
 		ObjectMeta: metav1.ObjectMeta{Name: name, Namespace: whNS}}
 	av := group + "/" + version
@@ -1137,7 +1163,7 @@ func (g *whG) rollout(name string, w *wlP, group, version, kind string) *rollout
 		av = version
 	}
 	ref := rolloutsv1beta1.ObjectRef{APIVersion: av, Kind: kind, Name: w.Name}
-	if !g.p(70) {
+	if !(g.p(70) || (steer && g.p(85))) {
 		switch g.n(6) {
 		case 0:
 			ref.Name = "other"
@@ -1159,7 +1185,11 @@ func (g *whG) rollout(name string, w *wlP, group, version, kind string) *rollout
 		tr = []rolloutsv1beta1.TrafficRoutingRef{{Service: "svc"}}
 	}
 	steps := []rolloutsv1beta1.CanaryStep{{Pause: rolloutsv1beta1.RolloutPause{}}}
-	switch g.n(10) {
+	sk := g.n(10)
+	if steer && sk == 0 && g.p(70) {
+		sk = 6
+	}
+	switch sk {
 	case 0: // empty release
 	case 1, 2, 3:
 		r.Spec.Strategy.BlueGreen = &rolloutsv1beta1.BlueGreenStrategy{Steps: steps, TrafficRoutings: tr}
@@ -1168,13 +1198,17 @@ func (g *whG) rollout(name string, w *wlP, group, version, kind string) *rollout
 	default:
 		r.Spec.Strategy.Canary = &rolloutsv1beta1.CanaryStrategy{Steps: steps, TrafficRoutings: tr}
 	}
-	if g.p(12) {
+	if g.p(12) && !(steer && g.p(70)) {
 		now := metav1.NewTime(time.Unix(1700000000, 0))
 		r.DeletionTimestamp = &now
 		r.Finalizers = []string{"rollouts.kruise.io/rollout"}
 	}
 	r.Spec.Disabled = g.p(10)
-	switch g.n(8) {
+	ph := g.n(8)
+	if steer && ph == 0 && g.p(70) {
+		ph = 3
+	}
+	switch ph {
 	case 0:
 		r.Status.Phase = rolloutsv1beta1.RolloutPhaseDisabled
 	case 1:
@@ -1184,7 +1218,7 @@ func (g *whG) rollout(name string, w *wlP, group, version, kind string) *rollout
 	default:
 		r.Status.Phase = rolloutsv1beta1.RolloutPhaseHealthy
 	}
-	if g.p(8) {
+	if g.p(8) && !steer {
 		r.Namespace = "elsewhere"
 	}
 	return r
@@ -1192,8 +1226,10 @@ func (g *whG) rollout(name string, w *wlP, group, version, kind string) *rollout
 
 func (g *whG) replicaSets(d *wlP, oldBody int) []*apps.ReplicaSet {
 	n := g.n(5)
-	if g.p(35) {
+	if g.pb(35, 55) {
 		n = 1
+	} else if g.bias && n == 0 {
+		n = 2
 	}
 	out := []*apps.ReplicaSet{}
 	names := []string{"rs-a", "rs-b", "rs-c", "rs-d", "rs-e"}
@@ -1262,6 +1298,9 @@ var whExists = &metav1.LabelSelector{MatchExpressions: []metav1.LabelSelectorReq
 
 func (g *whG) cfg() *admregv1.MutatingWebhookConfiguration {
 	mode := g.n(40)
+	if g.bias && g.p(85) {
+		mode = 11 + g.n(29)
+	}
 	if mode == 0 {
 		return nil
 	}
@@ -1311,6 +1350,7 @@ func rawOf(o interface{}) json.RawMessage {
 }
 
 func (g *whG) genCase() *whGen {
+	g.bias = g.p(50)
 	combo := ""
 	switch x := g.n(100); {
 	case x < 40:
@@ -1350,10 +1390,14 @@ func (g *whG) genCase() *whGen {
 		out.Unified = true
 	}
 	// every update goes through the catch-all webhook too; StatefulSets may be sent to the typed handler
-	if g.p(8) {
+	if g.pb(8, 2) {
 		out.Unified = !out.Unified
 	}
-	switch g.n(60) {
+	opk := g.n(60)
+	if g.bias && g.p(80) {
+		opk = 59
+	}
+	switch opk {
 	case 0:
 		out.Op = "CREATE"
 	case 1:
@@ -1377,8 +1421,12 @@ func (g *whG) genCase() *whGen {
 	}
 	names := append([]string{}, whRolloutNames...)
 	g.c.Rng.Shuffle(len(names), func(i, j int) { names[i], names[j] = names[j], names[i] })
+	if g.bias && nr == 0 {
+		nr = 1 + g.n(3)
+	}
+	steered := g.n(nr + 1) // which Rollout (in generation order) is steered to match
 	for i := 0; i < nr; i++ {
-		out.Rollouts = append(out.Rollouts, rawOf(g.rollout(names[i], nw, out.Group, out.Version, out.Kind)))
+		out.Rollouts = append(out.Rollouts, rawOf(g.rollout(names[i], nw, out.Group, out.Version, out.Kind, g.bias && i == steered)))
 	}
 	if combo == "dep" {
 		for _, rs := range g.replicaSets(nw, old.Body) {
